@@ -103,7 +103,10 @@ func vguard(f func() error) (err error) {
 func vshortStack(s string) string {
 	var out []string
 	for _, l := range strings.Split(s, "\n") {
-		if strings.Contains(l, "/repo/") || strings.Contains(l, "sarama.") && !strings.Contains(l, "verif") {
+		if strings.Contains(l, "verif_") || strings.Contains(l, "vguard") || strings.Contains(l, ".Verif") {
+			continue
+		}
+		if strings.Contains(l, "/repo/") || strings.Contains(l, "sarama.") {
 			out = append(out, strings.TrimSpace(l))
 		}
 		if len(out) >= 8 {
